@@ -86,50 +86,38 @@ theorem overflow_fill_bounds (u : Nat) (hu : 4 < u) (n : Nat) (hn : 0 < n) :
   rw [Nat.sub_mul] at *
   omega
 
-theorem ceoLoop_eq (ps : Nat) (hps : 4 < ps) : ∀ (fuel n pages last : Nat), 0 < n → n ≤ fuel →
-    ceoLoop ps fuel n pages last =
-      some (pages + (n + (ps - 4) - 1) / (ps - 4), n - ((n + (ps - 4) - 1) / (ps - 4) - 1) * (ps - 4)) := by
-  intro fuel
-  induction fuel with
-  | zero => intro n _ _ hn hf; omega
-  | succ fuel ih =>
-    intro n pages last hn hf
-    unfold ceoLoop
-    simp only [Generated.OVERFLOW_HEADER_LENGTH]
-    by_cases h : n + 4 > ps
-    · simp only [h, if_true]
-      rw [ih _ _ _ (by omega) (by omega)]
-      have e : n + (ps - 4) - 1 = (n + 4 - ps + (ps - 4) - 1) + (ps - 4) := by omega
-      have e2 : (n + (ps - 4) - 1) / (ps - 4) = (n + 4 - ps + (ps - 4) - 1) / (ps - 4) + 1 := by
-        rw [e, Nat.add_div_right _ (by omega)]
-      rw [e2]
-      obtain ⟨h1, h2, h3⟩ := ceil_props (ps - 4) (n + 4 - ps) (by omega) (by omega)
-      generalize (n + 4 - ps + (ps - 4) - 1) / (ps - 4) = c at *
-      have e3 : (c + 1 - 1) * (ps - 4) = (c - 1) * (ps - 4) + (ps - 4) := by
-        rcases c with _ | c
-        · omega
-        · simp only [Nat.add_sub_cancel]; rw [Nat.succ_mul]
-      rw [e3]
-      congr 2 <;> omega
-    · simp only [h, if_false]
-      have e : (n + (ps - 4) - 1) / (ps - 4) = 1 := by
-        apply Nat.div_eq_of_lt_le <;> omega
-      rw [e]; simp
+/-- `calculate_expected_overflow` is a closed form: no recursion on `n` -/
+theorem expected_overflow_constant_time (n : Int) (ps : Nat) :
+    calcExpectedOverflow n ps =
+      if n ≤ 0 then some (0, n)
+      else if ps ≤ 4 then none
+      else some ((n.toNat + (ps - 4) - 1) / (ps - 4),
+        n - (((n.toNat + (ps - 4) - 1) / (ps - 4) - 1) * (ps - 4) : Nat)) := by
+  unfold calcExpectedOverflow
+  have hg : Generated.OVERFLOW_HEADER_LENGTH = 4 := rfl
+  rw [hg]
+  by_cases h : n ≤ 0
+  · have h1 : ¬ n > 0 := by omega
+    rw [if_neg h1, if_pos h]
+  · have h1 : n > 0 := by omega
+    rw [if_pos h1, if_neg h]
 
 theorem overflow_closed_form (u : Nat) (hu : 4 < u) (n : Nat) (hn : 0 < n) :
     calcExpectedOverflow (n : Int) u =
       some (Spec.overflowPages u n, (Spec.lastOverflowFill u n : Int)) := by
-  unfold calcExpectedOverflow Spec.lastOverflowFill Spec.overflowPages
-  have h1 : (n : Int) > 0 := by omega
+  rw [expected_overflow_constant_time]
+  have h1 : ¬ (n : Int) ≤ 0 := by omega
   have h2 : ¬ u ≤ 4 := by omega
-  simp only [h1, h2, if_true, if_false, Generated.OVERFLOW_HEADER_LENGTH, Int.toNat_natCast]
-  rw [ceoLoop_eq u hu n n 0 n hn (Nat.le_refl _)]
-  simp only [Option.map_some, Nat.zero_add]
+  rw [if_neg h1, if_neg h2]
+  unfold Spec.lastOverflowFill Spec.overflowPages
+  simp only [Int.toNat_natCast]
+  obtain ⟨_, h3, _⟩ := ceil_props (u - 4) n (by omega) hn
+  generalize ((n + (u - 4) - 1) / (u - 4) - 1) * (u - 4) = m at *
+  congr 2
+  omega
 
 theorem overflow_none (u : Nat) (n : Int) (hn : n ≤ 0) : calcExpectedOverflow n u = some (0, n) := by
-  unfold calcExpectedOverflow
-  have h1 : ¬ n > 0 := by omega
-  simp only [h1, if_false]
+  rw [expected_overflow_constant_time, if_pos hn]
 
 /-! ### pointer-map pages -/
 
@@ -426,6 +414,8 @@ theorem loop_chainOK (v : VersionIf) (hu : 4 < v.pageSize) :
       refine ⟨[], ?_, hc, hn⟩
       rw [List.append_nil]; exact (Except.ok.inj h).symm
     · rw [if_neg hn] at h
+      split at h
+      · cases h
       simp only [bind, Except.bind] at h
       have hr : r - (v.pageSize : Int) + (Generated.OVERFLOW_HEADER_LENGTH : Nat) = r - ((v.pageSize - 4 : Nat) : Int) := by
         simp only [Generated.OVERFLOW_HEADER_LENGTH]; omega
@@ -553,6 +543,71 @@ theorem chain_shape (v : VersionIf) (hu : 4 < v.pageSize) (first : Nat) (ov : Na
   intro p hp
   simpa only [List.length_cons, Nat.add_sub_cancel] using i3 p hp
 
+/-! ### bounded walk (C18): an accepted chain never visits a page twice -/
+
+theorem parseOverflowPage_number (v : VersionIf) (number : Nat) (r : Int) (pg : OvflPage)
+    (h : parseOverflowPage v number r = .ok pg) : pg.number = number := by
+  unfold parseOverflowPage at h
+  generalize Generated.OVERFLOW_HEADER_LENGTH = g at h
+  simp only [bind, Except.bind, pure, Except.pure, decide_eq_true_eq] at h
+  split at h
+  · cases h
+  split at h
+  · cases h
+  split at h
+  · cases h
+  split at h
+  · cases h
+  split at h
+  · cases h
+  split at h
+  · cases h
+  · cases h; rfl
+
+theorem loop_nodup (v : VersionIf) :
+    ∀ (fuel : Nat) (cur : OvflPage) (r : Int) (acc ch : List OvflPage),
+      overflowChainLoop v fuel cur r acc = .ok ch → (acc.map (·.number)).Nodup →
+      (ch.map (·.number)).Nodup := by
+  intro fuel
+  induction fuel with
+  | zero => intro cur r acc ch h; unfold overflowChainLoop at h; cases h
+  | succ fuel ih =>
+    intro cur r acc ch h hnd
+    unfold overflowChainLoop at h
+    by_cases hn : cur.next = 0
+    · rw [if_pos hn] at h
+      cases h
+      rw [List.map_reverse]
+      unfold List.Nodup at hnd ⊢
+      rw [List.pairwise_reverse]
+      exact hnd.imp (fun h => Ne.symm h)
+    · rw [if_neg hn] at h
+      split at h
+      · cases h
+      rename_i hany
+      simp only [bind, Except.bind] at h
+      split at h
+      · cases h
+      rename_i nx hp
+      refine ih _ _ _ _ h ?_
+      rw [List.map_cons, List.nodup_cons]
+      refine ⟨?_, hnd⟩
+      rw [parseOverflowPage_number v _ _ _ hp]
+      intro hmem
+      apply hany
+      obtain ⟨q, hq, hqe⟩ := List.mem_map.1 hmem
+      exact List.any_eq_true.2 ⟨q, hq, by simpa using hqe⟩
+
+/-- every accepted overflow chain visits pairwise distinct pages: the walk is bounded by the
+number of pages of the database, whatever the payload size claims -/
+theorem overflow_walk_no_repeat (v : VersionIf) (first : Nat) (ov : Int) (ch : List OvflPage)
+    (h : parseOverflowChain v first ov = .ok ch) : (ch.map (·.number)).Nodup := by
+  unfold parseOverflowChain at h
+  simp only [bind, Except.bind] at h
+  split at h
+  · cases h
+  exact loop_nodup v _ _ _ _ _ h (by simp)
+
 theorem unpackAt_no_rec (b : Buf) (lo : Int) (n : Nat) : unpackAt b lo n ≠ .error .recursionError := by
   unfold unpackAt
   simp only []
@@ -599,6 +654,8 @@ theorem loop_no_rec (v : VersionIf) (hu : 4 < v.pageSize)
     by_cases hn : cur.next = 0
     · rw [if_pos hn] at h; cases h
     · rw [if_neg hn] at h
+      split at h
+      · cases h
       simp only [bind, Except.bind] at h
       have hr : r - (v.pageSize : Int) + (Generated.OVERFLOW_HEADER_LENGTH : Nat) = r - ((v.pageSize - 4 : Nat) : Int) := by
         simp only [Generated.OVERFLOW_HEADER_LENGTH]; omega
